@@ -719,7 +719,18 @@ func obsKey(o subj.ParseObs) string {
 		ex := append([]string{}, o.Err.Expected...)
 		e = fmt.Sprintf("tok#%d type%d injected=%v expected=%q", o.Err.ErrTok, o.Err.ErrTokType, o.Err.IsInjected, ex)
 	}
-	return fmt.Sprintf("errnil=%v err={%s} other=%q result=%s log=%s scans=%d panic=%v guard=%v", o.ErrNil, e, o.ErrOther, o.Result, logString(o.Log), o.ScanCalls, o.Panic != "", o.Guard)
+	var lb strings.Builder
+	for _, c := range o.Log {
+		lb.WriteString(c.Tag + "(")
+		for i, a := range c.Args {
+			if i > 0 {
+				lb.WriteString(",")
+			}
+			lb.WriteString(a.DeepString())
+		}
+		lb.WriteString(") ")
+	}
+	return fmt.Sprintf("errnil=%v err={%s} other=%q result=%s log=%s scans=%d panic=%v guard=%v", o.ErrNil, e, o.ErrOther, o.Result.DeepString(), lb.String(), o.ScanCalls, o.Panic != "", o.Guard)
 }
 
 func evalC16P(r *runner, u *parseUnit, c ParseCase) string {
